@@ -721,7 +721,7 @@ t0n_exit:
 
 # ====================================================================== effects (CBMC on the E2 functions)
 HARN = os.path.join(ROOT, "harness")
-Effect = namedtuple("Effect", "op name delta need peak rdelta rneed rpeak co proved note")
+Effect = namedtuple("Effect", "op name delta need peak rdelta rneed rpeak co proved note codelta noco coerr")
 
 
 def _harness_hash():
@@ -770,18 +770,22 @@ def ensure_pre(prog):
     return pth
 
 
+def _noeff(op, name, note):
+    return Effect(op, name, None, None, None, None, None, None, None, False, note, None, None, None)
+
+
 def _measure(prog, op, wd, lit=None, timeout=300):
     n = prog.natives[op]
     gb = os.path.join(wd, "eff-%s-%d%s.gb" % (prog.key, op, "" if lit is None else "-lit%d" % lit))
     defs = ["-DC05_EFFECT=1"] + (["-DC05_LIT=%d" % lit] if lit is not None else [])
     rc, o, e = goto_cc_native(prog, op, gb, defs)
     if rc != 0:
-        return Effect(op, n.name, None, None, None, None, None, None, None, False, "goto-cc failed: " + (o + e)[-800:])
+        return _noeff(op, n.name, "goto-cc failed: " + (o + e)[-800:])
     try:
         rc, o, e = sh(["cbmc", gb, "--json-ui", "--no-standard-checks", "--no-malloc-may-fail", "--unwind", "34",
                        "--unwinding-assertions", "--drop-unused-functions", "--slice-formula"], timeout=timeout)
     except subprocess.TimeoutExpired:
-        return Effect(op, n.name, None, None, None, None, None, None, None, False, "cbmc timeout")
+        return _noeff(op, n.name, "cbmc timeout")
     finally:
         try:
             os.unlink(gb)
@@ -790,7 +794,7 @@ def _measure(prog, op, wd, lit=None, timeout=300):
     try:
         js = json.loads(o)
     except Exception:
-        return Effect(op, n.name, None, None, None, None, None, None, None, False, "cbmc output unparsable: " + (o + e)[-300:])
+        return _noeff(op, n.name, "cbmc output unparsable: " + (o + e)[-300:])
     res = []
     nobody = []
     for m in js:
@@ -799,10 +803,11 @@ def _measure(prog, op, wd, lit=None, timeout=300):
         if "messageText" in m and "no body for" in m["messageText"]:
             nobody.append(m["messageText"].strip())
     if not res:
-        return Effect(op, n.name, None, None, None, None, None, None, None, False, "no results: " + (o + e)[-300:])
+        return _noeff(op, n.name, "no results: " + (o + e)[-300:])
     poss = {}
     bad = []
     completed = False
+    co = noco = coerr = None
     for r in res:
         d = r.get("description", "")
         st = r.get("status")
@@ -814,11 +819,17 @@ def _measure(prog, op, wd, lit=None, timeout=300):
         if d == "EFF co":
             co = st == "FAILURE"
             continue
+        if d == "EFF noco":
+            noco = st == "FAILURE"       # some path returns without yielding
+            continue
+        if d == "EFF coerr":
+            coerr = st == "SUCCESS"      # every yielding path leaves err != 0
+            continue
         if d == "EFF completed":
             completed = st == "FAILURE"
             continue
         if st != "SUCCESS":
-            bad.append(d)
+            bad.append("%s [%s]" % (d, r.get("sourceLocation", {}).get("function", "?")))
     note = []
     if bad:
         note.append("failed: " + "; ".join(sorted(set(bad)))[:300])
@@ -834,13 +845,16 @@ def _measure(prog, op, wd, lit=None, timeout=300):
     def mx(k):
         v = poss.get(k, set())
         return max(v) if v else None
-    delta, rdelta = one("delta"), one("rdelta")
-    if delta is None:
-        note.append("data stack effect not constant: %s" % sorted(poss.get("delta", [])))
+    delta, rdelta, codelta = one("delta"), one("rdelta"), one("codelta")
+    if not noco:
+        delta = codelta          # the word always yields (co, fail): the effect is that of the yielding paths
+    if delta is None or (co and codelta is None):
+        note.append("data stack effect not constant: %s / when yielding %s" % (sorted(poss.get("delta", [])), sorted(poss.get("codelta", []))))
     if rdelta is None:
         note.append("return stack effect not constant: %s" % sorted(poss.get("rdelta", [])))
-    proved = not bad and not nobody and completed and delta is not None and rdelta is not None
-    return Effect(op, n.name, delta, mx("need"), mx("peak"), rdelta, mx("rneed"), mx("rpeak"), co, proved, " | ".join(note))
+    proved = not bad and not nobody and completed and delta is not None and rdelta is not None and (not co or codelta is not None)
+    return Effect(op, n.name, delta, mx("need"), mx("peak"), rdelta, mx("rneed"), mx("rpeak"), co, proved, " | ".join(note),
+                  codelta if co else None, noco, coerr if co else None)
 
 
 def native_effects(prog, jobs=None, force=False):
@@ -904,8 +918,9 @@ def cli_effects(p, rest):
     effs = native_effects(p, force="--force" in rest)
     bad = 0
     for e in effs.values():
-        print("%s %3d %-28s delta=%s need=%s peak=%s rdelta=%s co=%s %s %s" % (
-            p.key, e.op, e.name, e.delta, e.need, e.peak, e.rdelta, e.co, "PROVED" if e.proved else "NOT-PROVED", e.note))
+        print("%s %3d %-28s delta=%s need=%s peak=%s rdelta=%s co=%s%s %s %s" % (
+            p.key, e.op, e.name, e.delta, e.need, e.peak, e.rdelta, e.co,
+            (" codelta=%s returns=%s coerr=%s" % (e.codelta, e.noco, e.coerr)) if e.co else "", "PROVED" if e.proved else "NOT-PROVED", e.note[:400]))
         bad += 0 if e.proved else 1
     print("%s: %d natives, %d not proved" % (p.key, len(effs), bad))
     return 0
